@@ -473,7 +473,11 @@ class Model(Immutable):
 
     def to_dict(self) -> dict[str, Any]:
         if self._initial_individual_estimates is not None:
-            ie = self._initial_individual_estimates.to_dict()
+            # NOTE: The individual identifiers become strings to be valid keys in JSON
+            ie = {
+                col: {str(ind): val for ind, val in vals.items()}
+                for col, vals in self._initial_individual_estimates.to_dict().items()
+            }
         else:
             ie = None
         depvars = {str(key): val for key, val in self._dependent_variables.items()}
@@ -500,6 +504,11 @@ class Model(Immutable):
             ie = None
         else:
             ie = pd.DataFrame.from_dict(ie_dict)
+            if len(ie.index) > 0 and all(isinstance(ind, str) for ind in ie.index):
+                try:
+                    ie.index = pd.to_numeric(ie.index)
+                except (ValueError, TypeError):
+                    pass
         depvars = {Expr.symbol(key): value for key, value in d['dependent_variables'].items()}
         obstrans = {
             Expr.deserialize(key): Expr.deserialize(val)
